@@ -372,9 +372,22 @@ def work(item):
         ps, sc = mk(S)
         op = build_real(sp, Env(ps, sc))
         M = sx.arr(qp.matrix(op, wire_order=W))
-        sop = qp.simplify(op)
+        via = []
+        orig_simplify = qp.Rot.simplify
+
+        def traced(self_):  # call-site marker for the known finding F4: did Rot.simplify take its "-> Hadamard" branch on this path?
+            out = orig_simplify(self_)
+            if isinstance(out, qp.Hadamard):
+                via.append(1)
+            return out
+
+        qp.Rot.simplify = traced
+        try:
+            sop = qp.simplify(op)
+        finally:
+            qp.Rot.simplify = orig_simplify
         Ms = sx.arr(qp.matrix(sop, wire_order=W))
-        return M, Ms, repr(sop)[:80]
+        return M, Ms, repr(sop)[:80] + (" [via Rot.simplify -> Hadamard]" if via else "")
 
     def consume_s(S, v, i):
         M, Ms, r = v
